@@ -32,6 +32,7 @@ LineBefore(lines, li) ==
 ClassAt(lines, li, ii, it) ==
     IF StrBefore(lines, li, ii) THEN "_after_255_char_string"
     ELSE IF LineBefore(lines, li) THEN "_after_255_char_line"
+    ELSE IF it.k = "s" /\ Len(it.b) >= 2 /\ it.b[1] = CR /\ it.b[2] = LF THEN "_string_starts_with_cr_lf"
     ELSE IF it.k = "s" /\ HasLF(it.b) THEN "_string_contains_linefeed"
     ELSE ""
 NoItem == [k |-> "none"]
@@ -55,7 +56,11 @@ Judge(e, s0, s1) ==
         ii == IF IsOpen(s0, n) THEN s0.fil[n].ii ELSE 0
         mine == IsOpen(s1, n) /\ o[n].open
     IN  IF frag /\ Must(s0, e) = "ok" /\ ~e.ok
-            THEN <<"valid_operation_failed" \o (IF reads THEN ClassAt(lines, li, ii, NoItem) ELSE ""), reads>>
+            THEN <<"valid_operation_failed" \o
+                   (IF ~reads THEN ""
+                    ELSE IF e.op = "input"       \* a 255-character string read by an earlier variable of this very statement counts
+                         THEN LET p == PosAfter(lines, li, ii, e.k - 1) IN ClassAt(lines, p[1], p[2], NoItem)
+                         ELSE ClassAt(lines, li, ii, NoItem)), reads>>
         ELSE IF \E k \in FileNums : o[k].open # IsOpen(s1, k) THEN <<"open_files_differ_from_model", FALSE>>
         ELSE IF reads /\ e.op = "input" /\ BadVar(e, InputResult(s0, e)) # 0
             THEN LET j  == BadVar(e, InputResult(s0, e))
